@@ -11,8 +11,8 @@ E1 = "E1-llsym"
 CHECKS = {
     "C03": dict(engine=E1, cat="model_checking", design="DESIGN.md §4 C03",
                 technique="bounded symbolic execution of the generated C's LLVM IR + z3 (bit-vectors) vs specification decoders; witnesses replayed on the compiled module",
-                text="Decoders (hybrid RLE/bit-pack, bit-packed, RLE, varint, delta-binary-packed) executed symbolically from the LLVM IR of the generated C with the argument patterns of their call sites; z3 shows output == specification for every payload of each enumerated stream shape, or returns a payload that is replayed on the compiled module. Bounded: shapes enumerated, payload symbolic.",
-                note="Reduced claim: the decoders only (not PLAIN/np.frombuffer, codecs, conversion, page assembly). Trusts clang's IR, the stub list in the evidence file, and the specification functions written from Encodings.md."),
+                text="Decoders (hybrid RLE/bit-pack, bit-packed, RLE, varint, delta-binary-packed) executed symbolically from the LLVM IR of the generated C with the argument patterns of their call sites; z3 shows output == specification for every payload of each enumerated stream shape, or returns a payload that is replayed on the compiled module. Bounded: shapes enumerated, payload symbolic (delta: first value and min-delta varints of 1, 5 and 10 bytes). On top: the real core.read_col page loop for a flat column (CrossHair; several pages, OPTIONAL/REQUIRED, dictionary/plain), the call-site patterns of read_data_page (v1) and a z3 lemma lifted from the AST of every delta_binary_unpack call site (v1 and v2) deciding the 32/64-bit choice.",
+                note="Reduced claim: the decoders, the flat page loop and the decoder call sites (not PLAIN/np.frombuffer value bytes, codecs, converted-type conversion, numpy fast paths of v2 pages). Trusts clang's IR, the stub list in the evidence file, and the specification functions written from Encodings.md."),
     "C11": dict(engine=E1, cat="model_checking", design="DESIGN.md §4 C11",
                 technique="bounded symbolic execution of the generated C's LLVM IR + z3 (bit-vectors) vs specification; replay on the compiled module",
                 text="Every primitive kernel of cencoding x every shape of a lattice (widths 0..32 / 0..64, counts, capacities 0..count+1, item sizes) is executed over symbolic payload and compared with a specification function by z3; encoder/decoder round trips included; full 64-bit range for varint/zigzag/width_from_max_int. Translator validated against the compiled module on the repo's test vectors and seeded vectors.",
@@ -29,12 +29,12 @@ CHECKS["C05"] = dict(engine=E2, cat="other", design="DESIGN.md §4 C05",
     note="Bounded by harness shapes (<=2 clauses per AND group, <=2 OR groups, in-lists <=3, strings <=2 chars); statistics decoding and partition-text typing are stubbed to identity; float/NaN/datetime bounds outside.")
 CHECKS["C06"] = dict(engine=E2, cat="other", design="DESIGN.md §4 C06",
     technique="CrossHair (z3) symbolic execution of the real to_pandas/head/count on a shim handle + z3 LIA lemma lifted from pre_allocate's AST",
-    text="Placement arithmetic of full and partial reads: the real to_pandas / head / count run symbolically with row-group sizes in [0, 2^31); postconditions: placements tile the allocation in order, head(n) reads a prefix holding min(n,total) rows, count() = sum. The RangeIndex reconstruction expression is extracted from the source and decided in LIA.",
-    note="Reduced claim: offsets, counts and range-index arithmetic only; column/index selection, pickling and file-like input are pandas/IO glue outside the encoding. Shim handle records what pre_allocate/read_row_group_file are given.")
+    text="Placement arithmetic of full and partial reads: the real to_pandas / head / count run symbolically with row-group sizes in [0, 2^31); postconditions: placements tile the allocation in order, head(n) reads a prefix holding min(n,total) rows, count() = sum, iter_row_groups yields one frame per non-empty group in order, a caller-supplied file object stays open and reusable, a handle read twice gives the same placements. The RangeIndex reconstruction expression is extracted from the source and decided in LIA.",
+    note="Reduced claim: offsets, counts and range-index arithmetic only; column/index selection and pickling are pandas glue outside the encoding. Shim handle records what pre_allocate/read_row_group_file are given.")
 CHECKS["C13"] = dict(engine=E2, cat="other", design="DESIGN.md §4 C13",
     technique="CrossHair (z3) symbolic execution of the real _column_filter / to_pandas mask branch on vector shims; counterexamples replayed through to_pandas(row_filter=True)",
     text="Predicate evaluation (real _column_filter; row values, constants, operators symbolic) is compared with the documented semantics, and the two-pass masked placement of the real to_pandas is checked for every mask over small row-group shapes. Counterexamples are replayed on real files.",
-    note="Bounded: <=2 rows x 2 columns, <=2 clauses x <=2 groups, masks over <=4 row groups of <=4 rows. numpy/pandas replaced by vector shims with the documented elementwise contracts. Mask application inside page decoding is outside.")
+    note="Bounded: <=2 rows x 2 columns, <=2 clauses x <=2 groups, masks over <=4 row groups of <=4 rows; partition clauses in either position of an AND group and as OR groups. numpy/pandas replaced by vector shims with the documented elementwise contracts. Mask application inside the page loop is checked on the real core.read_col for a flat column of <=3 pages (v1 pages; v2 pages with a mask are outside).")
 CHECKS["C16"] = dict(engine=E2, cat="other", design="DESIGN.md §4 C16",
     technique="CrossHair (z3) symbolic execution of the real update_file_custom_metadata on a symbolic file and of update_custom_metadata on real KeyValue objects; replay on real files",
     text="In-place footer rewrite for every data length and every old/new footer length (so every footer delta): nothing before the footer is written and the file is exactly data ++ footer ++ len32 ++ PAR1; merge rules compared with the dict-update-with-None-deletes model over str/bytes/non-ASCII key spellings; write-time values decode back verbatim.",
@@ -43,14 +43,14 @@ E3 = "E3-pyxlift"
 CHECKS["C15"] = dict(engine=E3, cat="other", design="DESIGN.md §4 C15",
     technique="CrossHair (z3) symbolic execution of _assemble_objects lifted from cencoding.pyx (drift-guarded against the generated C) vs a Dremel reference; counterexamples replayed on the compiled function",
     text="Record assembly for 3-level LIST columns: the real _assemble_objects (lifted from the .pyx each run) is executed page by page over all valid definition/repetition level streams of the bounded length and every page split position, for optional/required list x optional/required element, and must equal standard record assembly.",
-    note="Bounded: streams of 3 (thorough 4) level entries, 1-2 page splits. Trusts the mechanical lift (types stripped, integer wrap, index obligations) - tied to the compiled code by the quoted-line drift guard and by replaying every counterexample on the compiled function. MAP zipping and dictionary dereference (numpy) outside.")
+    note="Bounded: streams of 3 (thorough 4) level entries, 1-2 page splits. Trusts the mechanical lift (types stripped, integer wrap, index obligations) - tied to the compiled code by the quoted-line drift guard and by replaying every counterexample on the compiled function. The real core.read_col + SchemaHelper drive the assembler for LIST columns (null flag, max levels from the schema path). MAP zipping and dictionary dereference (numpy) outside.")
 CHECKS["C10"] = dict(engine="E3-pyxlift+E1-llsym", cat="other", design="DESIGN.md §4 C10",
     technique="CrossHair (z3) over to_bytes/write_thrift/write_list lifted from cencoding.pyx with bounds obligations (lengths symbolic) + LLVM-IR/z3 check of the varint/zigzag kernels; witnesses confirmed under ASan",
-    text="Size safety: for every combination of string/bytes lengths (0..8 MB) in a FileMetaData / Statistics structure, each unchecked memcpy of the serialiser stays inside the buffer chosen by the sizing heuristic and no checked write is dropped - or the solver returns lengths that are replayed on an ASan build. Integers: ULEB128/zigzag encode and decode agree with the specification over the full 64-bit range.",
-    note="Reduced claim so far: capacity (T4) and integer codec (T1). Structure round trip / IDL conformance (T2/T3) are added by vf.props.thrift_struct when present. The lift is tied to the compiled code by the quoted-line drift guard and by replay.")
+    text="Size safety: for every combination of string/bytes lengths (0..8 MB) in a FileMetaData / Statistics structure, each unchecked memcpy of the serialiser stays inside the buffer chosen by the sizing heuristic and no checked write is dropped - or the solver returns lengths that are replayed on an ASan build. Integers: ULEB128/zigzag encode and decode agree with the specification over the full 64-bit range. Structures: write_thrift/read_thrift (lifted) emit exactly the IDL-conformant token stream of the reference codec and read it back to an equal object, including metadata produced by another writer that is re-serialised.",
+    note="T1 integer codec (E1), T2 structure round trip and re-serialisation of foreign metadata against a reference compact codec generated from parquet.thrift each run (token streams; every struct of the IDL that fastparquet writes, integer profiles instead of free integers, lists <= 2), T4 capacity plus the buffer premise as a non-linear integer lemma lifted from to_bytes. The lift is tied to the compiled code by the quoted-line drift guard and by replay.")
 CHECKS["C01"] = dict(engine=E2, cat="other", design="DESIGN.md §4 C01",
     technique="CrossHair (z3) over the real iter_dataframe / write_column / make_definitions / skip_definition_bytes with shims; z3 bit-vector and LIA lemmas lifted from function ASTs; LLVM-IR/z3 decode of writer-shaped level streams",
-    text="Reduced claim: the framing arithmetic on which the round trip depends - row-group and page tiling, level-block length agreement between writer and the reader's skip for every row count < 2^31, null-mask decode for the writer's shapes, dictionary-index header vs reader fast path, range-index regeneration - each decided for all values within its bound.",
+    text="Reduced claim: the framing arithmetic on which the round trip depends - row-group and page tiling, level-block length agreement between writer and the reader's skip for every row count < 2^31, null-mask decode for the writer's shapes, dictionary-index header vs reader fast path, range-index regeneration, and the logical-type <-> physical-type tables of writer and reader being mutually inverse (lemma over the real tables) - each decided for all values within its bound.",
     note="Value conversion through numpy/pandas, codecs, dtype restoration and block-manager aliasing are not encodable and are outside the claim (stated in DESIGN.md); the three interaction failures named in the property live there.")
 CHECKS["C02"] = dict(engine=E2, cat="other", design="DESIGN.md §4 C02",
     technique="CrossHair (z3) symbolic execution of the real write_column / write_simple / write_multi over symbolic lengths with a linear-arithmetic oracle on the write log; witnesses replayed by writing a real file and validating it structurally",
@@ -58,16 +58,16 @@ CHECKS["C02"] = dict(engine=E2, cat="other", design="DESIGN.md §4 C02",
     note="Reduced claim: bookkeeping and framing; the bytes inside segments (values, codec output, thrift) and decoding by an independent reader are outside. Collaborators that end in C are contract shims listed in the evidence; write_column carries one declared AST rewrite.")
 CHECKS["C04"] = dict(engine=E2, cat="other", design="DESIGN.md §4 C04",
     technique="CrossHair (z3) over the statistics section of the real write_column with a categorical shim implementing the pandas ordering contract; replay through ParquetFile.statistics",
-    text="Categorical min/max over symbolic category order and presence must equal the smallest/largest present value; null_count equals the per-page tally for every null layout; plain columns pass min/max through.",
+    text="Categorical min/max over symbolic category order and presence must equal the smallest/largest present value; null_count equals the per-page tally for every null layout; plain columns pass min/max through; which columns get statistics (stats=True/False/list/auto) and the sorted-columns derivation from chunk bounds (real api.sorted_partitioned_columns / statistics selection) agree with the documented rule.",
     note="Reduced claim: fastparquet-side logic only; pandas min/max semantics (NaN, unsigned, tz, unicode) and decoding in api.statistics are outside.")
 CHECKS["C07"] = dict(engine=E2, cat="other", design="DESIGN.md §4 C07",
     technique="CrossHair (z3) over the real write_simple append branch and write_row_groups/write_multi on symbolic files / filesystem",
-    text="Append positions and order: every write of a single-file append starts at or after the old footer, row groups = old ++ new, the file ends with the new frame; a multi-file append opens no existing data file for writing, uses fresh part names, writes parts before the summary and references old ++ new in order.",
+    text="Append positions and order: every write of a single-file append starts at or after the old footer, row groups = old ++ new, the file ends with the new frame; a multi-file append opens no existing data file for writing, uses fresh part names (existing ids with gaps and several digits), writes parts before the summary, references old ++ new in order and gives every part file a footer describing exactly its own rows.",
     note="Reduced claim: positions/order/names. Categorical relabelling on read and schema checks are pandas/numpy glue outside. Assumes the re-serialised footer does not shrink on append.")
 CHECKS["C18"] = dict(engine=E2, cat="other", design="DESIGN.md §4 C18",
     technique="CrossHair (z3) over the real write paths with a rejection injected at a symbolic (row group, byte) position; replay on real files",
     text="If a late rejection occurs at any row-group position after any number of bytes, the call raises and the pre-existing bytes are untouched (or restored).",
-    note="Reduced claim: failure position; which inputs trigger rejections is concrete pandas behaviour outside.")
+    note="Reduced claim: failure position, plus the up-front column check of append reached through the real write_row_groups -> write_simple -> make_row_group; which values trigger an encoding rejection is concrete pandas behaviour outside. Single-file append rejected mid-way is a recorded known finding.")
 CHECKS["C19"] = dict(engine=E2, cat="other", design="DESIGN.md §4 C19",
     technique="CrossHair (z3) over the real multi-file append path on a symbolic filesystem with the failing call index symbolic; replay with fault-injecting open_with/mkdirs on real files",
     text="For every index k of a failing filesystem call before the metadata phase the append raises and no pre-existing file was opened for writing; fault-free, parts precede the summary and names are fresh; a normal return implies the fault was not reached.",
@@ -75,15 +75,15 @@ CHECKS["C19"] = dict(engine=E2, cat="other", design="DESIGN.md §4 C19",
 CHECKS["C08"] = dict(engine=E2, cat="other", design="DESIGN.md §4 C08",
     technique="CrossHair (z3) over the real partition_on_columns/path_string/join_path and paths_to_cats/val_to_num/read_row_group partition lines with symbolic key values; replay by writing and reading a real hive/drill dataset",
     text="Path text <-> key value: for all string keys up to the bound (every character except '/' and '=') and integer/bool keys of every digit count, distinct keys give distinct directories and each written path reads back exactly its key, of the same kind, under the original name (hive) or as directory text (drill).",
-    note="Reduced claim: text kinds only (str/int/bool); float and timestamp keys and the pandas groupby are outside. numpy's dtype(t).type is a contract stub; partition_on_columns carries one declared AST rewrite.")
+    note="Reduced claim: text kinds (str/int/bool) plus the timestamp key text produced by path_string (Timestamp.isoformat contract shim: second/milli/micro/nanosecond resolution must survive); float keys and the pandas groupby are outside. numpy's dtype(t).type is a contract stub; partition_on_columns carries one declared AST rewrite.")
 CHECKS["C14"] = dict(engine=E2, cat="other", design="DESIGN.md §4 C14",
     technique="CrossHair (z3) over the real metadata_from_many (both branches) and analyse_paths with symbolic row counts, footer lengths and path components",
     text="Metadata assembly for lists of files: order of row groups (file order, then intra-file), relative paths that rebuild the originals under the common base path, total row count, complete footer fetch for any footer length, schema verification.",
-    note="Reduced claim: metadata assembly only; directory listing, partition typing (C08) and categorical labels across files are outside. ParquetFile / fs.cat are shims.")
+    note="Reduced claim: metadata assembly only (the fetch order of fs.cat is arbitrary - the shim returns sorted order while the file list order is symbolic); directory listing, partition typing (C08) and categorical labels across files are outside. ParquetFile / fs.cat are shims.")
 CHECKS["C09"] = dict(engine=E2, cat="other", design="DESIGN.md §4 C09",
     technique="CrossHair (z3): one inductive step of the real remove_row_groups / _sort_part_names / write_row_groups from a symbolic dataset state satisfying the invariant",
     text="From any dataset state within the bound that satisfies the invariant (referenced files == files on disk, no duplicates, num_rows = sum) one removal, renumbering or append of the real code re-establishes the invariant and yields the model's row-group list.",
-    note="Lowest-priority, reduced claim: no histories (one step from an arbitrary valid state), <=3 row groups; append='overwrite' is outside.")
+    note="Lowest-priority, reduced claim: no histories (one step from an arbitrary valid state), <=3 row groups. append='overwrite' is one step of the real writer.overwrite on a shim dataset (partition values <= 3, which partitions are replaced and which stay). Renumbering with part numbers shared between directories is a recorded known finding.")
 NA = {
     "C17": "dtype/categorical/index prediction vs what pandas allocates: no symbolic model of pandas' allocation is within reach and prediction and allocation share one function; row counts are decided under C06",
     "C20": "quantifies over CPython thread schedules of code running in pandas/numpy/C extensions; CrossHair executes one thread and no engine here gives a semantics for interleaved bytecode; a hand-written interleaving model would not be the real code",
